@@ -145,7 +145,8 @@ pub fn replay_netterm(case: &Value, rep: &mut Report, rng: &mut Rng) {
         for (i, v) in xs.iter().enumerate() {
             env.insert(format!("a0_{}", i + 1), *v as f64);
         }
-        // ---- install ----
+        // ---- install (a parameter tensor of another shape than the specification's is a verdict, not a harness error) ----
+        let installed = guarded(|| {
         for (i, it) in items.iter().enumerate() {
             if str_of(it, "kind") == "fb" {
                 let inner = it["inner"].as_array().unwrap();
@@ -160,6 +161,12 @@ pub fn replay_netterm(case: &Value, rep: &mut Report, rng: &mut Rng) {
                 let cfg = &it["l"]["cfg"];
                 install_params(&mut net.layers[i], str_of(cfg, "kind"), &params_of(cfg, &groups[&l["group"].as_u64().unwrap()]), bool_of(cfg, "bias"));
             }
+        }
+        });
+        if let Err(e) = installed {
+            rep.mismatch("C02", "layer_built_with_other_shapes_than_the_size_formulas_give", &id, json!({"panic": e}), case);
+            rep.mismatch("C08", "layer_built_with_other_shapes_than_the_size_formulas_give", &id, json!({"panic": e}), case);
+            return;
         }
         // ---- the specification's programs, double precision ----
         forward_from(&program, 0, &mut env);
